@@ -292,11 +292,7 @@ func (r *Reader) traverseNode(n *html.Node, ctx *parseContext) {
 				}
 				// Check for nested lists
 				ctx.listLevel++
-				for c := n.FirstChild; c != nil; c = c.NextSibling {
-					if c.Type == html.ElementNode && (c.Data == "ul" || c.Data == "ol") {
-						r.traverseNode(c, ctx)
-					}
-				}
+				forEachNestedList(n, nil, func(c *html.Node) { r.traverseNode(c, ctx) })
 				ctx.listLevel--
 			}
 			return
@@ -498,11 +494,7 @@ func (r *Reader) traverseNodeFiltered(n *html.Node, ctx *parseContext, elements 
 				}
 				// Check for nested lists
 				ctx.listLevel++
-				for c := n.FirstChild; c != nil; c = c.NextSibling {
-					if c.Type == html.ElementNode && (c.Data == "ul" || c.Data == "ol") {
-						r.traverseNodeFiltered(c, ctx, elements)
-					}
-				}
+				forEachNestedList(n, ctx.checker, func(c *html.Node) { r.traverseNodeFiltered(c, ctx, elements) })
 				ctx.listLevel--
 			}
 			return
@@ -743,6 +735,24 @@ func getTextContentRecursive(n *html.Node, checker *exclusionChecker, result *st
 // getDirectTextContent gets the text that belongs to a node itself: inline
 // content and the content of paragraph-like wrappers (p, div, blockquote),
 // excluding nested lists and tables, which the caller handles separately.
+// forEachNestedList calls fn for the lists inside a list item: its ul and ol
+// children, and those that stand inside a wrapper or a table of the item
+// (whose own text writeDirectTextContent has taken without them).
+func forEachNestedList(n *html.Node, checker *exclusionChecker, fn func(*html.Node)) {
+	for c := n.FirstChild; c != nil; c = c.NextSibling {
+		if c.Type != html.ElementNode || (checker != nil && checker.shouldExclude(c)) {
+			continue
+		}
+		switch c.Data {
+		case "ul", "ol":
+			fn(c)
+		case "div", "p", "blockquote",
+			"table", "caption", "thead", "tbody", "tfoot", "tr", "td", "th":
+			forEachNestedList(c, checker, fn)
+		}
+	}
+}
+
 func getDirectTextContent(n *html.Node, checker *exclusionChecker) string {
 	var result strings.Builder
 	writeDirectTextContent(n, checker, &result)
@@ -758,11 +768,13 @@ func writeDirectTextContent(n *html.Node, checker *exclusionChecker, result *str
 			result.WriteString(c.Data)
 		} else if c.Type == html.ElementNode {
 			switch c.Data {
-			case "ul", "ol", "table":
+			case "ul", "ol":
 				// Skip these - nested lists become items of their own
-			case "div", "p", "blockquote":
-				// Block wrappers: their own text is part of this node's text,
-				// separated from its neighbours by a single space
+			case "div", "p", "blockquote",
+				"table", "caption", "thead", "tbody", "tfoot", "tr", "td", "th":
+				// Block wrappers (and a table inside the item, cell by cell):
+				// their own text is part of this node's text, separated from
+				// its neighbours by a single space
 				if s := result.String(); s != "" && !strings.HasSuffix(s, " ") {
 					result.WriteString(" ")
 				}
